@@ -316,8 +316,22 @@ func buildAPI(r *rand.Rand, bigBody bool) (*fbb.Message, *model, error) {
 		md.hasFrom, md.from = true, genAddr(r)
 		m.SetFrom(md.from.In)
 	}
+	// again: a recipient that is already on the list, in the same or in another spelling (a group list that was
+	// merged from two sources): every entry that was added is an entry of the message
+	again := func(list []addr) addr {
+		a := list[r.Intn(len(list))]
+		if a.Proto == "" {
+			a.In = vrt.Pick(r, []string{a.In, a.Addr, strings.ToLower(a.Addr), a.Addr + "@winlink.org"})
+		} else {
+			a.In = vrt.Pick(r, []string{a.In, a.Addr, "SMTP:" + a.Addr})
+		}
+		return a
+	}
 	for i, n := 0, r.Intn(6); i < n; i++ {
 		a := genAddr(r)
+		if len(md.to) > 0 && r.Intn(5) == 0 {
+			a = again(md.to)
+		}
 		md.to = append(md.to, a)
 		if r.Intn(2) == 0 && i+1 < n { // variadic form
 			b := genAddr(r)
@@ -330,6 +344,13 @@ func buildAPI(r *rand.Rand, bigBody bool) (*fbb.Message, *model, error) {
 	}
 	for i, n := 0, r.Intn(6); i < n; i++ {
 		a := genAddr(r)
+		if r.Intn(5) == 0 {
+			if len(md.cc) > 0 && r.Intn(2) == 0 {
+				a = again(md.cc)
+			} else if len(md.to) > 0 {
+				a = again(md.to)
+			}
+		}
 		md.cc = append(md.cc, a)
 		m.AddCc(a.In)
 	}
@@ -371,6 +392,16 @@ func buildAPI(r *rand.Rand, bigBody bool) (*fbb.Message, *model, error) {
 			name = genText(r, r.Intn(2), 255)
 		}
 		f := fileSpec{Name: name, Data: genData(r, r.Intn(25) == 0)}
+		if len(md.files) > 0 && r.Intn(4) == 0 {
+			// the same file attached twice, or another file of the same name and size: two attachments
+			prev := md.files[r.Intn(len(md.files))]
+			f = fileSpec{Name: prev.Name, Data: append([]byte(nil), prev.Data...)}
+			if r.Intn(2) == 0 {
+				for k := range f.Data {
+					f.Data[k] ^= byte(1 + r.Intn(255))
+				}
+			}
+		}
 		md.files = append(md.files, f)
 		m.AddFile(fbb.NewFile(f.Name, f.Data))
 	}
